@@ -34,6 +34,11 @@ def record(ad, cfg, steps):
     design, ins, outs = built[0], built[1], built[2]
     hook = built[3] if len(built) > 3 else None
     clocked = built[4] if len(built) > 4 else True
+    # every other configuration is simulated on its SECOND elaboration (a user may well have
+    # converted or simulated the instance before): the hardware must be the same then
+    if common.rng("pre-elab", json.dumps(cfg, sort_keys=True, default=str)).random() < 0.5:
+        from amaranth.hdl import Fragment
+        Fragment.get(design, None)
     if callable(steps):
         log = simulate(design, ins, outs, steps, hook=hook, clocked=clocked)
     else:
